@@ -18,5 +18,10 @@ def run(ctx):
         big = [j for j in jobs if len(j[1]) == 3][:8]
         jobs = sel + big
     fl.run_mixes(ctx, rp, jobs, max_paths=300 if ctx.quick else None)
+    # code -> spec: random schedules of mixes beyond the dumpable bound, validated as traces by TLC
+    big = [(["val"], ["co", "bl", "cb", "hv"]), (["exc", "drop"], ["bl", "bl", "co", "co"]), (["val", "mdes", "dtor"], ["cb", "bl", "co"]),
+           (["final"], ["bl", "co", "cb", "hv", "bl"])]
+    for k, (r, w) in enumerate(big if not ctx.quick else big[:2] + [big[2 + ctx.seed % 2]]):
+        fl.explore_validate(ctx, rp, r, w, "tv%d" % k, 150 if ctx.quick else 1500)
     ctx.assume("compare_exchange_weak does not fail spuriously (x86-64 lock cmpxchg); weak CAS is executed as strong under the controlled scheduler")
     ctx.assume("flag.notify_all() after flag.store(true) touches the (possibly destroyed) sync_awaiter by address only")
